@@ -221,7 +221,7 @@ extern "C" void drv_sanitizer_death(void) { fault_line("sanitizer"); }
 extern "C" void __sanitizer_set_death_callback(void (*)(void));
 #endif
 
-void sys_draws_flush();
+void sys_draws_flush() __attribute__((weak));      // defined in wrap_trng.cpp (absent from the extra drivers)
 static void h_reset(const Args &) { obj_reset_all(); g_regs.clear(); Ev("Reset").emit(); }
 
 static void run_line(const std::string &s, long lineno) {
@@ -238,7 +238,7 @@ static void run_line(const std::string &s, long lineno) {
     std::map<std::string, handler_t>::iterator it = g_handlers.find(a.op);
     if (it == g_handlers.end()) fatal("unknown op %s", a.op.c_str());
     it->second(a);
-    sys_draws_flush();
+    if (sys_draws_flush) sys_draws_flush();
     obj_check_all();
 }
 #include <pthread.h>
